@@ -57,6 +57,10 @@ if TYPE_CHECKING:
 log = logging.getLogger(__name__)
 
 
+# Largest character identifier (ISO 32000-1, 9.7.4: CIDs are 0 to 65535).
+MAX_CID = 65535
+
+
 def get_widths(seq: Iterable[object]) -> Dict[Union[str, int], float]:
     """Build a mapping of character widths for horizontal writing."""
     widths: Dict[int, float] = {}
@@ -74,7 +78,9 @@ def get_widths(seq: Iterable[object]) -> Dict[Union[str, int], float]:
             if len(r) == 3:
                 (char1, char2, w) = r
                 if isinstance(char1, int) and isinstance(char2, int):
-                    for i in range(cast(int, char1), cast(int, char2) + 1):
+                    # CIDs are 0..65535: a (damaged) range far beyond that
+                    # must not be materialised entry by entry
+                    for i in range(max(char1, 0), min(char2, MAX_CID) + 1):
                         widths[i] = w
                 else:
                     log.warning(
@@ -93,18 +99,22 @@ def get_widths2(seq: Iterable[object]) -> Dict[int, Tuple[float, Point]]:
     widths: Dict[int, Tuple[float, Point]] = {}
     r: List[float] = []
     for v in seq:
+        v = resolve1(v)
         if isinstance(v, list):
             if r:
                 char1 = r[-1]
-                for i, (w, vx, vy) in enumerate(choplist(3, v)):
-                    widths[cast(int, char1) + i] = (w, (vx, vy))
+                metrics = [resolve1(m) for m in v]
+                for i, (w, vx, vy) in enumerate(choplist(3, metrics)):
+                    if all(isinstance(m, (int, float)) for m in (w, vx, vy)):
+                        widths[cast(int, char1) + i] = (w, (vx, vy))
                 r = []
         elif isinstance(v, (int, float)):  # == utils.isnumber(v)
             r.append(v)
             if len(r) == 5:
                 (char1, char2, w, vx, vy) = r
-                for i in range(cast(int, char1), cast(int, char2) + 1):
-                    widths[i] = (w, (vx, vy))
+                if isinstance(char1, int) and isinstance(char2, int):
+                    for i in range(max(char1, 0), min(char2, MAX_CID) + 1):
+                        widths[i] = (w, (vx, vy))
                 r = []
     return widths
 
